@@ -402,14 +402,30 @@ pub fn check(def: &Def, dir: Option<&Path>, case: &Value) -> (Vec<Violation>, bo
     }
     // (3) shadowing warnings through the runner.
     if let Some(dir) = dir {
-        let files = runner::write_project(dir, &[("p.circom", &format!("{src}{SUB}"))]);
+        // Every other case a template that instantiates M (or a function that calls it) is
+        // analysed first: M is then lifted and cached before its own analysis starts, and its
+        // lifting-stage warnings must still be displayed, exactly once.
+        let user_first = case["index"].as_u64().unwrap_or(0) % 2 == 1;
+        let args = vec!["1"; def.params.len()].join(", ");
+        let user = if def.kind == DefKind::Function {
+            format!("function W() {{\n    return M({args});\n}}\n")
+        } else {
+            format!("template W() {{\n    component m = M({args});\n}}\n")
+        };
+        let files = runner::write_project(dir, &[("p.circom", &format!("{src}{SUB}{user}"))]);
         if let Ok(mut loaded) = runner::load(&files, &[], Curve::Bn254) {
             let lib = loaded.runner.file_library().clone();
             let mut collector = runner::Collector::default();
             let r = crate::infra::catch(|| {
                 if def.kind == DefKind::Function {
+                    if user_first {
+                        loaded.runner.verif_analyze_function("W", &mut collector);
+                    }
                     loaded.runner.verif_analyze_function("M", &mut collector)
                 } else {
+                    if user_first {
+                        loaded.runner.verif_analyze_template("W", &mut collector);
+                    }
                     loaded.runner.verif_analyze_template("M", &mut collector)
                 }
             });
